@@ -11,9 +11,11 @@ git apply $D/patch.diff || { echo "PATCH DOES NOT APPLY"; git -C /repo worktree 
 /venv/bin/python -m pytest -q -p no:cacheprovider --timeout=900 2>&1 | tail -1 | sed 's/\x1b\[[0-9;]*m//g' | sed 's/^/tests with change: /'
 PYTHONPATH=$WT /venv/bin/python $D/demo.py > $WT/.demo1.log 2>&1; echo "demo with change: exit $?"
 cd /verif
+cp evidence/$PID.json $WT/.evidence.json 2>/dev/null
 PYDL_SRC=$WT bin/check $PID --tier $TIER > $WT/.check.log 2>&1; RC=$?
 echo "check $PID ($TIER) with change: exit $RC, $(grep -c '^VIOLATION' $WT/.check.log) VIOLATION lines"
 grep -A1 '^VIOLATION' $WT/.check.log | grep -v '^VIOLATION\|^--' | head -3 | cut -c1-300
 tail -1 $WT/.check.log | cut -c1-200
+cp $WT/.evidence.json evidence/$PID.json 2>/dev/null   # evidence stays that of the unchanged tree
 git -C /repo worktree remove --force $WT
 rm -rf /verif/replays/$PID
